@@ -97,10 +97,6 @@ func runCase(t *testing.T, c *Case, opts runOpts) []string {
 			b.WriteString(evTokens(bg))
 			b.WriteString("\n")
 			lines = append(lines, b.String())
-			if pv != nil {
-				// a panic may leave locks held; stop the case here
-				return
-			}
 		}
 	})
 	return lines
